@@ -538,7 +538,7 @@ impl Acc {
         let key = key.into();
         // keep at most 3 witnesses per key and 40 overall per worker
         let same = self.violations.iter().filter(|v| v.key == key).count();
-        if same < 3 && self.violations.len() < 40 {
+        if same < 3 && self.violations.len() < 400 {
             self.violations.push(Violation { key, what: what.into(), case });
         }
         self.count("violating_evaluations", 1);
